@@ -208,3 +208,26 @@ func spoilDocument(supi string, k int) bool {
 	store.docs[acctKey{supi, 1}] = d
 	return true
 }
+
+// K<0|1>: a second key pair, written once; the configuration's Diameter sections name it while K1 is in force
+var (
+	secondPairOnce       sync.Once
+	secondPem, secondKey string
+)
+
+func rotateClientKeyPair(second bool) {
+	secondPairOnce.Do(func() {
+		d, err := os.MkdirTemp("", "verif-env2-")
+		if err != nil {
+			panic(err)
+		}
+		secondPem, secondKey = writeCert(d)
+	})
+	pem, key := certPem, certKey
+	if second {
+		pem, key = secondPem, secondKey
+	}
+	c := factory.ChfConfig.Configuration
+	c.RfDiameter.Tls.Pem, c.RfDiameter.Tls.Key = pem, key
+	c.AbmfDiameter.Tls.Pem, c.AbmfDiameter.Tls.Key = pem, key
+}
